@@ -952,6 +952,102 @@ example :
 
 end
 
+/-! ### linearity of the executed operator action -/
+
+section
+variable {K : Type} [Field K] [DecidableEq K]
+
+/-- every leaf of the tree acts additively -/
+def OdlModel.Adjoint.Impl.leavesAdditive (cj : K → K) (I : K) : Impl K → Prop
+  | .leaf l => ∀ x y : El K, l.run cj I (fun j i => x j i + y j i) =
+      fun j i => l.run cj I x j i + l.run cj I y j i
+  | .sum a b => a.leavesAdditive cj I ∧ b.leavesAdditive cj I
+  | .comp a b => a.leavesAdditive cj I ∧ b.leavesAdditive cj I
+  | .lscal a _ => a.leavesAdditive cj I
+  | .rscal a _ => a.leavesAdditive cj I
+  | .lvec a _ => a.leavesAdditive cj I
+  | .rvec a _ => a.leavesAdditive cj I
+  | .flvec f _ _ _ => f.leavesAdditive cj I
+  | .pnil _ _ _ => True
+  | .pcons _ _ a rest => a.leavesAdditive cj I ∧ rest.leavesAdditive cj I
+
+/-- `run_add`: the executed action `run t` of every expression tree (all classes, unbounded
+depth) is ADDITIVE whenever its leaves are — the model of "`is_linear` of an expression is the
+conjunction of `is_linear` of its operands".  The unit-vector matrix extraction that ties the
+model to the code relies on exactly this. -/
+theorem C05.run_add (cj : K → K) (I : K) (t : Impl K) (h : t.leavesAdditive cj I) (x y : El K) :
+    t.run cj I (fun j i => x j i + y j i) = fun j i => t.run cj I x j i + t.run cj I y j i := by
+  induction t generalizing x y with
+  | leaf l => exact h x y
+  | sum a b iha ihb =>
+    funext j i; simp only [Impl.run, iha h.1, ihb h.2]; ring
+  | comp a b iha ihb =>
+    simp only [Impl.run, ihb h.2, iha h.1]
+  | lscal a s iha => funext j i; simp only [Impl.run, iha h]; ring
+  | rscal a s iha =>
+    simp only [Impl.run]
+    rw [← iha h]; congr 1; funext j i; ring
+  | lvec a v iha => funext j i; simp only [Impl.run, iha h]; ring
+  | rvec a v iha =>
+    simp only [Impl.run]
+    rw [← iha h]; congr 1; funext j i; ring
+  | flvec f V F v ihf => funext j i; simp only [Impl.run, ihf h]; ring
+  | pnil k d r => funext j i; simp [Impl.run]
+  | pcons r c a rest iha ihr =>
+    funext j i
+    simp only [Impl.run, ihr h.2]
+    have := congrFun (congrFun (iha h.1 (fun _ i' => x c i') (fun _ i' => y c i')) 0) i
+    by_cases e : j = r
+    · simp only [e, if_true]; rw [this]; ring
+    · simp only [e, if_false]
+
+/-- Every modelled leaf except `opaque` / `nonlin` acts additively (for all sizes, weights,
+parameters): Scaling, Zero, Multiply (space and field domain), InnerProduct, Real/ImagPart,
+ComplexEmbedding, MatrixOperator, PointwiseInner(Adjoint), Sampling, WeightedSumSampling,
+Flattening and its inverse, ComponentProjection. -/
+theorem C05.leaf_run_add (cj : K →+* K) (I : K) (l : Leaf K)
+    (h : match l with
+      | .opaque _ _ _ _ _ | .nonlin _ _ _ | .projAdj _ _ _ => False
+      | _ => True) :
+    (Impl.leaf l).leavesAdditive cj I := by
+  intro x y
+  funext j i
+  cases l with
+  | «opaque» re d r f g => exact absurd h (by simp)
+  | nonlin d r f => exact absurd h (by simp)
+  | projAdj Q P idx => exact absurd h (by simp)
+  | scaling S s => simp only [Leaf.run]; ring
+  | zero d r => simp [Leaf.run]
+  | multiply d r v => simp only [Leaf.run]; ring
+  | multField S F v => simp only [Leaf.run]; ring
+  | inner S F v =>
+    simp only [Leaf.run, dot_eq, ← Finset.sum_add_distrib]
+    exact Finset.sum_congr rfl fun a _ => Finset.sum_congr rfl fun b _ => by ring
+  | realPart S R => simp only [Leaf.run, reK, map_add]; ring
+  | imagPart S R => simp only [Leaf.run, imK, map_add]; ring
+  | cembed S C s => simp only [Leaf.run]; split_ifs <;> ring
+  | matrix d r M =>
+    simp only [Leaf.run, sumTo_eq, ← Finset.sum_add_distrib]
+    exact Finset.sum_congr rfl fun k _ => by ring
+  | pwInner V X G w v =>
+    simp only [Leaf.run, sumTo_eq, ← Finset.sum_add_distrib]
+    exact Finset.sum_congr rfl fun k _ => by ring
+  | pwInnerAdj X V G w v => simp only [Leaf.run]; split_ifs <;> ring
+  | sampling S R idx b cv => simp only [Leaf.run]; ring
+  | wsum R S idx b cv =>
+    simp only [Leaf.run, sumTo_eq]
+    have e : (∑ k ∈ Finset.range (R.n 0), if idx k = i then x 0 k + y 0 k else 0) =
+        (∑ k ∈ Finset.range (R.n 0), if idx k = i then x 0 k else 0) +
+        ∑ k ∈ Finset.range (R.n 0), if idx k = i then y 0 k else 0 := by
+      rw [← Finset.sum_add_distrib]
+      exact Finset.sum_congr rfl fun k _ => by split_ifs <;> simp
+    rw [e]; ring
+  | flatten S R => simp [Leaf.run]
+  | flattenInv R S => simp [Leaf.run]
+  | proj P Q idx => simp [Leaf.run]
+
+end
+
 /-! ### adjoint of the adjoint -/
 
 section
@@ -1181,7 +1277,7 @@ theorem C05.adj_adj (cj : K →+* K) (hcj : ∀ a, cj (cj a) = a) (I : K)
 /-- `leavesAA` (the leaf hypothesis of `adj_adj_partial`) holds for: Zero, Scaling/Identity,
 Multiply (space and field domain), InnerProduct, MatrixOperator (non-zero real weights),
 PointwiseInner(Adjoint), RealPart (real space, or complex space with real range),
-Flattening.  Not covered (tested through the `AA=` matrix comparison only): the inverse of
+Flattening, ComplexEmbedding on a complex space, SamplingOperator (non-zero real weights).  Not covered (tested through the `AA=` matrix comparison only): the inverse of
 the flattening, ImagPart, ComplexEmbedding, Sampling/WeightedSumSampling, ComponentProjection(Adjoint). -/
 theorem C05.leaf_adj_adj (cj : K →+* K) (hcj : ∀ a, cj (cj a) = a) (I : K)
     (him : ∀ s, imK cj I (cj s) = 0 → cj s = s) (l : Leaf K)
@@ -1192,6 +1288,8 @@ theorem C05.leaf_adj_adj (cj : K →+* K) (hcj : ∀ a, cj (cj a) = a) (I : K)
       | .matrix d r _ => (∀ i, d.W 0 i ≠ 0) ∧ (∀ i, r.W 0 i ≠ 0) ∧ realW cj d ∧ realW cj r
       | .realPart S R => S.real = true ∨ (R.real = true ∧ (2 : K) ≠ 0)
       | .flatten S _ => (∀ i, S.W 0 i ≠ 0) ∧ realW cj S
+      | .cembed S C _ => S.real = false ∧ C.real = false
+      | .sampling S _ _ _ cv => (∀ i, S.W 0 i ≠ 0) ∧ realW cj S ∧ cv ≠ 0 ∧ cj cv = cv
       | _ => False) :
     (Impl.leaf l).leavesAA cj I := by
   intro t' ha
@@ -1242,6 +1340,22 @@ theorem C05.leaf_adj_adj (cj : K →+* K) (hcj : ∀ a, cj (cj a) = a) (I : K)
     have := h0 i
     by_cases hr : S.real = true <;>
       simp [Impl.run, Leaf.run, Impl.ran, Impl.dom, Leaf.ran, Leaf.dom, hr, map_div₀, hW _ _] <;>
+      field_simp
+  | cembed S C s =>
+    obtain ⟨hS, hC⟩ := h
+    simp [Leaf.adj, hS] at ha; subst ha
+    exact ⟨.leaf (.cembed C C (cj (cj s))), by simp [Impl.adj, Leaf.adj, hC],
+      by simp [Impl.run, Leaf.run, hS, hC, hcj]⟩
+  | sampling S R idx b cv =>
+    obtain ⟨h0, hW, hcv, hcvr⟩ := h
+    simp only [Leaf.adj, Option.some.injEq] at ha; subst ha
+    refine ⟨_, by simp only [Impl.adj, Leaf.adj, Option.bind_eq_bind, Option.bind_some,
+      Option.pure_def]; rfl, ?_⟩
+    funext x j k
+    have := h0 (idx k)
+    by_cases hr : S.real = true <;>
+      simp [Impl.run, Leaf.run, Impl.ran, Impl.dom, Leaf.ran, Leaf.dom, hr, map_div₀, hW _ _,
+        hcvr] <;>
       field_simp
   | zero d r => simp [Leaf.adj] at ha; subst ha; simp [Impl.adj, Leaf.adj, Impl.run, Leaf.run]
   | pwInner V X G w v =>
@@ -1331,6 +1445,19 @@ example :
         ⟨fun _ => by norm_num, fun _ => by norm_num, fun _ _ => rfl, fun _ _ => rfl⟩,
       C05.leaf_adj_adj (RingHom.id ℚ) (fun _ => rfl) 0 him (.inner S F _) trivial⟩
     ⟨C05.leaf_typed _ 0 (.matrix S S _) trivial, C05.leaf_typed _ 0 (.inner S F _) trivial⟩ h
+
+/-- Non-vacuity of `run_add` + `leaf_run_add`: the action of the concrete tree
+`3·M(v·x) + 2·x` is additive. -/
+example (x y : El ℚ) :
+    let S : Space ℚ := ⟨1, fun _ => 2, fun _ _ => 1 / 2, true⟩
+    let t : Impl ℚ := .sum
+      (.lscal (.rvec (.leaf (.matrix S S fun i k => (i : ℚ) - 2 * k)) fun _ i => (i : ℚ) + 1) 3)
+      (.leaf (.scaling S 2))
+    t.run (RingHom.id ℚ) 0 (fun j i => x j i + y j i) =
+      fun j i => t.run (RingHom.id ℚ) 0 x j i + t.run (RingHom.id ℚ) 0 y j i := by
+  intro S t
+  exact C05.run_add _ 0 t ⟨C05.leaf_run_add (RingHom.id ℚ) 0 (.matrix S S _) trivial,
+    C05.leaf_run_add (RingHom.id ℚ) 0 (.scaling S 2) trivial⟩ x y
 
 end
 
